@@ -86,7 +86,7 @@ def observe (r : Rep) (ws : List String) : Option String :=
     some s!"meta top={r.dd.top} nb={r.dd.nb} uc={joinNat uc} rm={joinNat rm} chain={",".intercalate r.names} head={r.headN} rev={r.rev} mode={modeStr r.mode} open={r.isOpen} ckpt={r.ckpt}"
   | ["cmp"] =>   -- after the promotion the three RW replicas hold identical images (C02, C07)
     if r.rb = 3 then some "cmp equal" else some "inadmissible"
-  | ["recs"] => if !r.isOpen then some "recs closed" else some ("recs " ++ joinNat r.recs)
+  | ["recs"] => if !r.isOpen then some "recs closed" else if r.recsUnknown then some "recs ?" else some ("recs " ++ joinNat r.recs)
   | ["imeta"] =>
     if !r.isOpen then some "imeta closed" else
     let marks := (List.range (r.dd.top + 1)).map fun i => if r.dd.marks i then 1 else 0
